@@ -65,6 +65,8 @@ def modify_dataset(rng, ds_lines, scen_too=True):
 
 def main(pid, tier, seed, replay_path=None):
     t0 = time.time()
+    if pid == "C15" and replay_path and replay_path.endswith(".json"):
+        return replay_l3(pid, replay_path)
     po = cl.proof_obligations(pid)
     l2, e1 = build.build_l2()
     dr, e2 = build.build_driver()
@@ -183,14 +185,34 @@ def main(pid, tier, seed, replay_path=None):
             fresh_checked += 1
             if norm(fr["impl"]) != norm(r["impl"]):
                 fails.append(("response differs from the same request on a freshly started instance: " + norm(fr["impl"])[:200], r, "one"))
+    # C15 only: refresh histories on the REAL server binary over HTTP (the /updateCache handler and the data status the
+    # endpoints answer from exist only there)
+    l3res, l3fails = None, []
+    if pid == "C15" and not replay_path:
+        import l3, l3refresh
+        binary, e3 = l3.build_server()
+        if e3:
+            path = cl.write_nofail_replay(pid, "server build (L3 refresh histories)", str(e3))
+            print("VIOLATION property=%s replay=%s no-failing-input-found" % (pid, path))
+            return 1
+        l3res = l3refresh.run(binary, seed, tier)
+        l3fails = l3res["fails"]
     rc, viol = 0, []
+    if l3fails:
+        why, rd = l3fails[0]
+        path = l3refresh.write_replay(pid, why, rd)
+        print("VIOLATION property=%s replay=%s" % (pid, path))
+        print(l3refresh.describe(why, rd))
+        for w in sorted(set("history %s kind %s phase %s: %s" % (x[1].get("history"), x[1].get("kind"), x[1].get("phase"), x[0][:90]) for x in l3fails[1:]))[:8]:
+            print("  also:", w)
+        viol.append(path); rc = 1
     if fails:
         why, r, mode = fails[0]
         path = cl.write_replay_file(pid, r["case"], "%s (cache mode %s, op #%d: %s)" % (why, mode, r["idx"], r["op"]), r)
         print("VIOLATION property=%s replay=%s" % (pid, path))
         print("  %s\n  cache mode: %s\n  op   : %s\n  impl : %s\n  model: %s" % (why, mode, r["op"], r["impl"][:300], r["model"][:300]))
         viol.append(path); rc = 1
-    elif not po["ok"]:
+    elif not po["ok"] and not l3fails:
         path = cl.write_nofail_replay(pid, "proof obligations of Properties_%s.v (%d of %d)" % (pid, po["discharged"], po["obligations"]), po["log"])
         print("VIOLATION property=%s replay=%s no-failing-input-found" % (pid, path))
         viol.append(path); rc = 1
@@ -206,15 +228,40 @@ def main(pid, tier, seed, replay_path=None):
                      "C14": "2-3 concurrent requests over >=2 scenarios, one thread each, under forced schedules at the four yield points (all 20 interleavings for 2 threads in thorough, samples otherwise), cold and warmed caches, both cache modes; non-trivial = distinct observed yield-point traces",
                      "C15": "histories with refreshes of kind all / schedules / scenarios+schedules between dataset pairs (trips dropped, times moved, scenario lists changed), both cache modes; non-trivial = request for a scenario cached before the refresh"}[pid],
                samples=samples or [dict(note="none")], histories=len(cases), fresh_process_comparisons=fresh_checked,
-               disagreements=len(fails), exhaustive=False)
+               disagreements=len(fails) + len(l3fails), exhaustive=False)
+    if l3res is not None:
+        cov.update(l3_refresh_histories=l3res["histories"], l3_refresh_answers=l3res["evaluations"], l3_refresh_kinds=l3res["kinds"],
+                   l3_refresh_cache_modes=l3res["cache_modes"], l3_refresh_omitted=l3res["omitted"],
+                   l3_refresh_answers_changed=l3res["answers_changed_by_refresh"], l3_refresh_disagreements=len(l3fails),
+                   l3_refresh_rule="real binary over HTTP: server started on dataset A's cache files (k4: one kind of files missing), query set of 9 requests (route, alternatives, summary, accessibility; scenarios 1-3; both time types), files replaced by dataset B's (k5: one kind removed), GET /updateCache?names=all | schedules | scenarios,schedules, the queries again: every answer must equal the answer of a server newly started on the same directory; then A's files are put back, /updateCache again, and every answer must equal the start-up answer; replies of /updateCache must be the success object, the process must stay alive")
     assumptions = {"C13": ["L2: one TransitData per history; the HTTP layer is exercised by the L3 checks"],
                    "C14": ["lookup and publish are atomic (shared_mutex) and a thread keeps its shared_ptr: trusted runtime; data races, torn updates and lifetimes are exercised (TSan/ASan builds in the thorough tier), not proved",
                            "alternatives re-fetch the set at every recalculation; the protocol model fetches once per request"],
-                   "C15": ["refresh = TransitData::update* in the /updateCache handler's order on an in-memory fetcher; the HTTP handler and the data status capture are exercised at L3"]}[pid]
+                   "C15": ["L2 part: refresh = TransitData::update* in the /updateCache handler's order on an in-memory fetcher; the HTTP handler and the data status the endpoints answer from are exercised by the L3 part (real binary, Cap'n Proto files rewritten on disk, /updateCache over HTTP)"]}[pid]
     cl.write_evidence(pid, tier, seed, "proof", cov, assumptions, time.time() - t0, len(viol))
-    print("%s %s: obligations %d/%d, %d responses in %d histories (%d non-trivial), %d fresh-process comparisons, %d violations, %.1fs" %
-          (pid, tier, po["discharged"], po["obligations"], evals, len(cases), cov["distinct_nontrivial"], fresh_checked, len(fails), time.time() - t0))
+    l3txt = "" if l3res is None else " L3 (real server, /updateCache over HTTP): %d answers after refresh in %d histories %s, %d changed by the refresh, %d differ from a fresh server, %.1fs;" % (
+        l3res["evaluations"], l3res["histories"], " ".join("%s=%d" % kv for kv in sorted(l3res["kinds"].items())), l3res["answers_changed_by_refresh"], len(l3fails), l3res["wall_s"])
+    print("%s %s: obligations %d/%d, %d responses in %d histories (%d non-trivial), %d fresh-process comparisons,%s %d violations, %.1fs" %
+          (pid, tier, po["discharged"], po["obligations"], evals, len(cases), cov["distinct_nontrivial"], fresh_checked, l3txt, len(fails) + len(l3fails), time.time() - t0))
     return rc
+
+
+def replay_l3(pid, replay_path):
+    """re-run the history of an L3 replay file (tools/l3refresh.py) on the binary built from the current sources"""
+    import l3, l3refresh
+    binary, e3 = l3.build_server()
+    if e3:
+        path = cl.write_nofail_replay(pid, "server build (L3 refresh histories)", str(e3))
+        print("VIOLATION property=%s replay=%s no-failing-input-found" % (pid, path))
+        return 1
+    res = l3refresh.replay(binary, replay_path)
+    if res["fails"]:
+        why, rd = res["fails"][0]
+        print("VIOLATION property=%s replay=%s" % (pid, replay_path))
+        print(l3refresh.describe(why, rd))
+        return 1
+    print("%s replay %s: %d answers after refresh in %d history, all equal to a fresh server's" % (pid, replay_path, res["evaluations"], res["histories"]))
+    return 0
 
 
 def dataset_in_force(case, opidx):
